@@ -53,6 +53,9 @@ SHAPES = {
     'diamond': [('B', (), 1), ('M1', ('B',), 1), ('M2', ('B',), 1), ('T', ('M1', 'M2'), 1)],
     'twice': [('B', (), 2), ('T', ('B', 'B'), 1)],
     'wide': [('B1', (), 1), ('B2', (), 1), ('T', ('B1', 'B2'), 0)],
+    # a module without axioms of its own between the top module and the module that declares them (a pure lemma library)
+    'chain0': [('B', (), 1), ('M', ('B',), 0), ('T', ('M',), 1)],
+    'chain00': [('B', (), 2), ('M', ('B',), 0), ('T', ('M',), 0)],
 }
 
 
